@@ -188,6 +188,8 @@ def run(ck):
             o = rr.origins(rc[0][1]["args"][2], deep=True)
             ck.ob("DEFUSE", rr.path, "runs-stored-config", ("field", "config") in o or ("arg", 1) in o, "the resumed configuration is the stored one", rr.loc(rc[0][0]))
 
+    host_conversion_cov(ck, e)
+
     # determinism
     cg = CallGraph([c, e])
     roots = [RUNCFG, RUNCFG[:-7]] + [p for p in cg.bodies if re.search(r"::v[01]::host::[a-z_0-9]+$", p)]
@@ -197,6 +199,31 @@ def run(ck):
     stop = re.compile(r"concordium_smart_contract_engine::utils::")
     ch = cg.path_to_ext(roots, NONDET, stop=stop)
     ck.ob("EFF", "interpreter+hosts", "no-nondeterminism", ch is None, "%d functions reachable (off-chain utils::TestHost excluded), none reaches RNG/clock/env" % len(cg.reach(roots, stop=stop)) if ch is None else " -> ".join(ch), "")
+
+
+def host_conversion_cov(ck, e):
+    """the conversion that saves a running host at an interrupt copies every field (call depth, logs, energy ...)"""
+    convs = []
+    for pth in e.paths():
+        for b in e.get_all(pth):
+            if b.get("name") == "from" and re.search(r"convert::From$", b.get("impl_trait", "")) and re.search(r"::v1::(InitHost|StateLessReceiveHost|ReceiveHost)<", b.get("impl_self", "")) \
+                    and re.search(r"Host<", b.get("impl_trait_full", "")):
+                convs.append(Fn(b))
+    ck.floor("COV", "host-saving conversions", len(convs), 2)
+    for f in convs:
+        base = f.b["impl_self"].split("<")[0]
+        for bi in sorted(f.reachable()):
+            for s in f.stmts(bi):
+                rv = s.get("rv", {})
+                if rv.get("k") == "agg" and rv.get("adt") == base:
+                    for i, fld in enumerate(rv["fields"]):
+                        o = f.origins(rv["ops"][i], deep=True)
+                        if "PhantomData" in str(rv["ops"][i]):
+                            continue
+                        ok = ("arg", 1) in o and ("field", fld) in o
+                        ck.ob("COV", f.path, "carried:" + fld, ok, "field `%s` of the saved host is taken from the same field of the running host" % fld if ok else
+                              "field `%s` of the saved host does not come from the running host: state is lost at the interrupt" % fld, f.loc(bi))
+
 
 
 def freeze():
